@@ -1,6 +1,8 @@
 import IncanModel.Driver.C04
 import IncanModel.Driver.C05
 import IncanModel.Driver.C07
+import IncanModel.Driver.C08
+import IncanModel.Driver.C09
 import IncanModel.Driver.C10
 import IncanModel.Driver.C19
 
@@ -11,6 +13,8 @@ def dispatch (line : String) : String :=
   | "c04" :: rest => handleC04 rest
   | "c05" :: rest => handleC05 rest
   | "c07" :: rest => handleC07 rest
+  | "c08" :: rest => handleC08 rest
+  | "c09" :: rest => handleC09 rest
   | "c10" :: rest => handleC10 rest
   | "c19" :: rest => handleC19 rest
   | "c11" :: rest => handleC19 rest
